@@ -31,7 +31,11 @@ pub fn gen_scenario(rng: &mut Rng, with_eval: bool) -> Scenario {
     let net = gen_net(rng, &opts);
     // mostly small sets; one in eight is large enough that different split trees of the
     // parallel batch map contain leaves of three or more samples
-    let n = if scale() {
+    // very wide layers are expensive per sample: keep their data sets moderate
+    let very_wide = net.shapes().map(|v| v.iter().any(|s| s.count() >= 1000)).unwrap_or(false);
+    let n = if scale() && very_wide {
+        rng.range(17, 40)
+    } else if scale() {
         rng.range(100, 400)
     } else {
         match rng.below(8) {
@@ -55,6 +59,7 @@ pub fn gen_scenario(rng: &mut Rng, with_eval: bool) -> Scenario {
     };
     let epochs = if scale() { rng.range(3, 12) as i32 } else { rng.range(1, 3) as i32 };
     let train = gen_data(rng, &net, n);
+    let eval_size = |rng: &mut Rng| if very_wide { rng.range(60, 130) } else { eval_size(rng) };
     let val = if with_eval && rng.chance(0.5) {
         let v = if rng.chance(0.5) { eval_size(rng) } else { rng.range(1, 6) };
         Some(gen_data(rng, &net, v))
@@ -158,6 +163,7 @@ impl Property for C05 {
             "batch_ge_17",
             "print_some",
             "scale_stratum",
+            "width_ge_1024",
         ]
     }
 
